@@ -111,6 +111,15 @@ PROPS = {
                      'window / column cropping (crop_source_window, crop_window_text, crop_line_by_cols): string slicing by char columns, outside the verifier; reflected keys, formatter messages, miette'],
         assumptions=['String::into_bytes / from_utf8 shims (contracts/snippet.shim.rs)'],
     ),
+    'C05': dict(
+        covered=[
+            'cursor discipline of the format side: take_scalar_event / take_scalar_cow_event (exactly one scalar, its text, tag and location), expect_seq_start / expect_map_start (exactly one event of that kind), peek_anchor_id (never consumes)',
+            'VA::expect_map_end: closes exactly one mapping or fails; VA::unit_variant accepts only `Variant`, `{Variant}` closing at once, or `{Variant: <null-like>}`',
+            'enforce_single_document_and_finish: succeeds only if nothing is left after the root value (or only garbage after an explicit document end)',
+        ],
+        not_covered=['arity / field-name checks of serde-generated visitors; deserialize_option / deserialize_unit / deserialize_enum bodies (generic over Visitor); the inline copies of the leftover check in src/lib.rs entry points; the reference interpreter comparison'],
+        assumptions=['scalar_is_nullish is used as an uninterpreted function of text and style'],
+    ),
     'C08': dict(covered=['budget counters bound the number of observed events/nodes (BudgetEnforcer::observe accept_only_within_limits)'],
                 not_covered=['heap bytes (no allocator model)'], assumptions=[]),
 }
@@ -127,7 +136,7 @@ NOT_APPLICABLE = {
     #'C02': 'not yet under contract in this revision (unit live planned, DESIGN.md 4)',
     #'C03': 'not yet under contract in this revision (unit events planned)',
     #'C04': 'not yet under contract in this revision (unit events planned)',
-    'C05': 'not yet under contract in this revision (unit cursor planned)',
+    #'C05': 'not yet under contract in this revision (unit cursor planned)',
     #'C09': 'not yet under contract in this revision (unit reader planned)',
     #'C10': 'not yet under contract in this revision (units reader/live planned)',
     #'C11': 'not yet under contract in this revision (unit live planned)',
